@@ -286,7 +286,7 @@ pub fn run_c09(ctx: &Ctx) -> (Report, String) {
 /// few large squares), the other small - thresholds a dense small box never reaches.
 fn boundary_images(ctx: &Ctx, prop: &'static str) -> Report {
     let mut dims: Vec<(usize, usize)> = vec![];
-    for d in [255usize, 256, 257, 1023, 1025, 4095, 4097, 8191, 8193, 16383, 16385, 32767, 32769, 65534, 65535, 65536, 65537, 131071, 131073, 262143, 262145, 524287, 524289, 1048575, 1048577] {
+    for d in [255usize, 256, 257, 1023, 1025, 4095, 4097, 8191, 8193, 16383, 16385, 32767, 32769, 65534, 65535, 65536, 65537, 131071, 131072, 131073, 262143, 262144, 262145, 524287, 524288, 524289, 1048575, 1048576, 1048577, 2097152] {
         for s in [1usize, 2, 9, 10, 11, 17] {
             dims.push((d, s));
             dims.push((s, d));
